@@ -281,7 +281,16 @@ def run_property(prop, tier="quick", seed=0, level="proof", only=None, jobs=None
                 by_clause.setdefault(f.get("clause", "bounded"), []).append(f)
             for clause, fs in by_clause.items():
                 k = known_match(known, prop, t.name, clause)
-                if k:
+                if k and k.get("observed_contains"):
+                    # a finding identified by what is observed: only the failures that show it are the known finding, any other failure
+                    # of the same clause is still a violation
+                    mine = [f for f in fs if k["observed_contains"] in str(f.get("observed", ""))]
+                    rest = [f for f in fs if f not in mine]
+                    if mine:
+                        known_hits.append((k, t.name, clause, mine[0]))
+                    if rest:
+                        violations.append(dict(task=t.name, clause=clause, bounded=True, witnesses=rest[:3]))
+                elif k:
                     known_hits.append((k, t.name, clause, fs[0]))
                 else:
                     violations.append(dict(task=t.name, clause=clause, bounded=True, witnesses=fs[:3]))
